@@ -43,10 +43,12 @@ THEOREMS = [
     "Ural.Props.C12.splitLaw_psl_class",
     "Ural.Props.C12.roundtrip_string_psl",
     "Ural.Props.C12.accessors_string_psl",
-    "Ural.Props.C12.fullRoundtripStringPsl_false",
+    "Ural.Props.C12.fullRoundtripStringPsl",
     "Ural.Props.C13.mem_pslSplit",
     "Ural.Props.C13.split_nobar_psl",
-    "Ural.Props.C13.splitLaw_psl_plain",
+    "Ural.Props.C13.pslSplit_rejoins",
+    "Ural.Props.C13.splitRejoins_psl",
+    "Ural.Props.C13.splitLaw_psl",
     "Ural.Props.C13.splitCaseInv_psl",
     "Ural.Props.C13.pslSplit_spec",
     "Ural.Props.C08.walk_eq_psl",
@@ -90,8 +92,9 @@ RULE = (
     "and with an independent Python reading of the class. Tie of the theorems with suffix_trie.py inside (*_psl): for "
     "every URL case run with suffix_aware=True the model splits the host with ITS OWN trie built from the regenerated "
     "suffix list (op lru_pairs_psl with an empty batch: nothing shipped from the real split_suffix) and must return "
-    "the real split_suffix answer; the host condition pslHostOK of roundtrip_string_psl is compared with an independent "
-    "Python reading. The distribution counts the evaluations inside the "
+    "the real split_suffix answer (roundtrip_string_psl has no host condition left: the former pslHostOK is gone with the fix "
+    "FX-C12-EMPTYLABELS; hosts with trailing dots / a leading dot are corpus cases, a host shape of the grammar and frequent among the mutated URLs). "
+    "The distribution counts the evaluations inside the "
     "proved class (string-class:inside) and, outside, the clause that fails. "
     "Non-trivial = the URL has no '|', urlsplit accepts it and it is inside the grammar (wf); "
     "distinct = distinct (URL, modes)."
@@ -109,9 +112,9 @@ TRUSTED = [
     "split_suffix (public-suffix trie, property C08) is an abstract parameter of the model; the driver uses the answer of the real split_suffix shipped with each case; for the *_psl theorems it is the hand-written Lean model of ural/classes/suffix_trie.py (Model/SuffixTrie.lean, Model/LruPsl.lean; proved equal to the publicsuffix.org algorithm over the rule list: C08.walk_eq_psl) on the list regenerated from ural.tld_data — tied to the real split_suffix on the host of every suffix-aware URL case of this run (op lru_pairs_psl, nothing shipped)",
 ]
 ASSUMPTIONS = [
-    "C08 clause used as hypothesis (SplitRejoins / SplitRejoinsUrl) ONLY by the theorems with an abstract split_suffix (serialization_string, roundtrip_string_partial, accessors_string_partial, stems_wellformed, roundtrip_parts): when split_suffix(url) is not None its two parts re-join to the lower-cased urlsplit(url).hostname. For the real split_suffix it is FALSE on a plain host that ends with '.' or is '.'+public suffix (suffix_trie.py strips trailing dots / answers an empty domain) — there these theorems say nothing; the theorems with suffix_trie.py inside (serialization_string_psl: no hypothesis at all; roundtrip_string_psl / accessors_string_psl: host condition pslHostOK = bracketed literal, or neither leading nor trailing dot) replace the hypothesis by a proof (splitLaw_psl_class, splitCaseInv_psl), and the clause is checked by the oracle on every pslHostOK case of this run. Nothing is assumed about split_suffix on a bracketed IP literal: stems.py does not consult it there (fix of the former KF-C12-1), and the theorems do not either (hostSplit, splitLaw_bracketed)",
+    "C08 clause used as hypothesis (SplitRejoins / SplitRejoinsUrl) ONLY by the theorems with an abstract split_suffix (serialization_string, roundtrip_string_partial, accessors_string_partial, stems_wellformed, roundtrip_parts): when split_suffix(url) is not None its two parts re-join to the lower-cased urlsplit(url).hostname WITHOUT ITS TRAILING DOTS (what suffix_trie.py walks) — the first part is empty and the second is that string (bare suffix), or first + '.' + second is it (first may be empty there: '.co.uk' -> ('', 'co.uk')). This is Props.C08.split_rejoin literally; it holds for the real split_suffix on EVERY host (trailing dots, leading dot included), is a theorem for the model of suffix_trie.py (C13.splitRejoins_psl), so the theorems with suffix_trie.py inside (serialization_string_psl, roundtrip_string_psl, accessors_string_psl) have no such hypothesis, and it is checked by the oracle on every suffix-aware plain-host case of this run. Nothing is assumed about split_suffix on a bracketed IP literal: stems.py does not consult it there (fix of the former KF-C12-1), and the theorems do not either (hostSplit, splitLaw_bracketed)",
     "C08 case clause used as hypothesis (SplitCaseInv / SplitCaseInvUrl = Props.C08.split_case_insensitive at the hostname of u) by roundtrip_string_partial only, for suffix_aware=True and a plain host holding '%' (CPython's .hostname keeps the letter case of what follows a '%', the suffix-aware mode lower-cases the whole host): split_suffix answers the same for the lower-cased hostname; proved for suffix_trie.py (splitCaseInv_psl), checked by the oracle on every such case of this run",
-    "reading: hosts are compared lower-cased in suffix-aware mode (so a plain host with '%' is inside the reading: the accessor form B.hostname == A.hostname is NOT demanded there, it fails by design of CPython's .hostname); userinfo/host without raw '@', port without ':' (the grammar); 'userinfo' is compared as the pair (user or '', password or ''): empty and absent user/password are identified ('http://u:@h' comes back as 'http://u@h', 'http://@h' and 'http://:@h' as 'http://h'); 'host:' (empty port) and 'host' are the same port for the oracle (CPython .port is None for both). The former reading 'suffix-aware clause only for hosts without empty label' (DESIGN D35) is WITHDRAWN: every plain host is demanded, the loss of a trailing / lone leading empty label is the known finding KF-C12-2",
+    "reading: hosts are compared lower-cased in suffix-aware mode (so a plain host with '%' is inside the reading: the accessor form B.hostname == A.hostname is NOT demanded there, it fails by design of CPython's .hostname); userinfo/host without raw '@', port without ':' (the grammar); 'userinfo' is compared as the pair (user or '', password or ''): empty and absent user/password are identified ('http://u:@h' comes back as 'http://u@h', 'http://@h' and 'http://:@h' as 'http://h'); 'host:' (empty port) and 'host' are the same port for the oracle (CPython .port is None for both). The former reading 'suffix-aware clause only for hosts without empty label' (DESIGN D35) is WITHDRAWN: every plain host is demanded, empty labels included (the loss of a trailing / lone leading empty label was the known finding KF-C12-2, repaired by FX-C12-EMPTYLABELS; its witnesses are corpus cases)",
 ]
 UNPROVED = (
     "The parser hypothesis is discharged: roundtrip_string_partial / accessors_string_partial / serialization_string are "
@@ -126,16 +129,14 @@ UNPROVED = (
     "a raw bracket in the userinfo: no failing input known, the proof would need the bracket check of urlsplit to survive "
     "the removal of an empty password (IPvFuture / zone texts holding ':@') — covered by correspondence + oracle only. "
     "(2a) SUFFIX-AWARE MODE, inside the class: the theorems for an abstract split_suffix (roundtrip_string_partial, "
-    "accessors_string_partial, and serialization_string outside the class too) take C08's clause at u (SplitRejoinsUrl) as a "
-    "HYPOTHESIS, which the real split_suffix does not satisfy on a plain host ending with '.' or equal to '.'+public suffix; "
-    "with suffix_trie.py inside (Props/C12Psl.lean) serialization_string_psl has NO hypothesis (every '|'-free string the parser "
-    "accepts, those hosts included) and roundtrip_string_psl / accessors_string_psl hold under the exact host condition pslHostOK "
-    "(bracketed literal, or neither leading nor trailing dot; C08's case clause for hosts with '%' is proved, not assumed). "
-    "OUTSIDE pslHostOK THE PROPERTY REALLY FAILS ON THE CODE — known finding KF-C12-2: lru_to_url(url_to_lru('http://a.co.uk./', "
-    "suffix_aware=True)) == 'http://a.co.uk/' (suffix_aware=False keeps the root label as the empty stem 'h:'), likewise "
-    "'http://.co.uk/' -> 'http://co.uk/'; theorem fullRoundtripStringPsl_false + examples (on a toy suffix list; reproduced on the "
-    "implementation with the real list on every run), candidate patch notes/fixes/c12-lru-stems-suffix-aware-empty-labels.diff. "
-    "Hosts with an inner or leading empty label that is part of the domain (a..co.uk, .a.co.uk) are inside pslHostOK or round-trip anyway. "
+    "accessors_string_partial, and serialization_string outside the class too) take C08's clause at u (SplitRejoinsUrl: the two parts re-join to the "
+    "lower-cased hostname without its trailing dots) as a HYPOTHESIS; with suffix_trie.py inside (Props/C12Psl.lean) it is a theorem "
+    "(C13.splitRejoins_psl): serialization_string_psl has NO hypothesis (every '|'-free string the parser accepts) and roundtrip_string_psl holds on "
+    "the WHOLE class with NO host condition — the former condition pslHostOK ('no leading / trailing dot') is gone since the fix "
+    "FX-C12-EMPTYLABELS (stems.py emits the empty labels split_suffix does not return; formerly known finding KF-C12-2: "
+    "'http://a.co.uk./' came back as 'http://a.co.uk/', 'http://.co.uk/' as 'http://co.uk/'); the former refutation fullRoundtripStringPsl_false is "
+    "replaced by the theorem fullRoundtripStringPsl and the former witnesses are Lean examples of the round trip (toy suffix list) and corpus cases "
+    "(real list, every run). C08's case clause for hosts with '%' is proved, not assumed. "
     "(2b) userinfo is compared up to 'empty ≡ absent' (expectedParts / canonAuth; 'u:@h' -> 'u@h', '@h' -> 'h'): a reading of "
     "'re-parse to exactly the components … userinfo', the printed strings differ; "
     "accessors_string_partial / accessors_string_psl (the statement in CPython's vocabulary, B.hostname == A.hostname) have the extra hypothesis "
@@ -192,10 +193,16 @@ CORPUS = [
     "http://A.CoM:80/", "http://me.github.io/p",
     # specials
     "localhost", "localhost:8080/a", "127.0.0.1:80", "http://1.2.3.4/", "http://LOCALHOST/",
-    # KF-C12-2 (D35): suffix-aware stems lose a trailing root label / the lone leading dot in front of a public
-    # suffix (suffix_aware=False keeps them); other empty labels round-trip
+    # FX-C12-EMPTYLABELS (formerly KF-C12-2, D35): suffix-aware stems used to lose a trailing root label / the lone
+    # leading dot in front of a public suffix (suffix_aware=False kept them); other empty labels round-tripped
     "http://a.co.uk./", "http://a.com./", "http://.co.uk/", "http://A.Co.UK..:80/x//y?q#f", "http://u:p@.com/", "http://x.www.ck./",
     "http://a..com/", "http://.a.com/", "http://..co.uk/", "http://a.b.notatld./", "http://localhost./", "http://[::1%a.co.uk.]/",
+    # … the review of the patch: dots x2, leading AND trailing, a bare suffix plus a dot, wildcard families (`.ck` is
+    # itself a suffix: one stem, no empty label), an exception rule, '%' and upper case, IPv4 + dot (not special: labels)
+    "http://a.co.uk../x", "http://.co.uk./", "http://co.uk./", "http://co.uk..:8080/", "http://uk.", "http://.uk", "http://.ck/",
+    "http://.ck./", "http://x.ck./", "http://www.ck./", "http://.www.ck/", "http://.kawasaki.jp/", "http://.a.kawasaki.jp/",
+    "http://city.kawasaki.jp./", "http://a%B.co.uk./", "http://.%B.ck/", "http://.%b.ck./", "http://.CO.UK/", "http://1.2.3.4./",
+    "http://.1.2.3.4/", "http://./", "http://../", "http://u:p@.co.uk.:80/x", "http://a..co.uk./", "http://.a.co.uk./",
     # outside the grammar: several '@', several ':', stray brackets, empty host
     "http://a@b@c.com/", "http://a.com:80:90/", "http://a]:80/", "http:///path", "http:////x", "http://:80/",
     "http://u:p:q@a.com/", "http://a.com:x/", "http://a%41.com/",
@@ -392,12 +399,6 @@ def wf_host_sa(netloc):
         # a bracketed literal is never suffix-processed: nothing is demanded
         return True
     return "%" not in host
-
-
-def psl_host_ok(host):
-    """the exact host condition of the suffix-aware round trip (Lean: Lru.pslHostOK): a bracketed literal, or a host
-    that neither starts nor ends with a dot"""
-    return host.startswith("[") or not (host.startswith(".") or host.endswith("."))
 
 
 def ascii_lower(s):
@@ -655,7 +656,6 @@ def _impl_url(C, url, sa, A, split):
         h, p = spec_hostport(hostport_of(A[1]))
         out["spec_host"] = h
         out["spec_port"] = "absent" if p is None else {"some": p}
-        out["psl_host_ok"] = psl_host_ok(h)
         out["expected"] = expected_tuple(t, sa, split)
     return out
 
@@ -697,7 +697,7 @@ def canon(op, out):
     out = dict(out)
     if op["f"] == "lru" and not out.get("wf"):
         # the grammar host/port and the expected tuple are only defined inside the grammar
-        for k in ("spec_host", "spec_port", "expected", "wf_sa", "psl_host_ok"):
+        for k in ("spec_host", "spec_port", "expected", "wf_sa"):
             out.pop(k, None)
     if op["f"] == "lru_url" and op.get("skip_back"):
         # the round-trip result is outside the stated domain of the parser model
@@ -801,24 +801,21 @@ def oracle_url(url, sa):
         return "serialize_lru(unserialize_lru(lru)) = %r, lru = %r" % (serialize_lru(unserialize_lru(lru)), lru)
     if not in_reading(A, sa):
         return None
-    # C08's clause (the two parts of split_suffix re-join to the lower-cased hostname) — a theorem for the model of
-    # suffix_trie.py on every host that is psl_host_ok (splitLaw_psl_class), and the hypothesis of the theorems with an
-    # abstract split_suffix: a real split_suffix that breaks it there is reported.  Not for a bracketed literal, on
-    # which split_suffix is not consulted.  Outside psl_host_ok (trailing dot, leading dot) the clause is false by
-    # construction of suffix_trie.py and NOT assumed: the round trip is demanded all the same and its loss is KF-C12-2.
+    # C08's clause (Props.C08.split_rejoin: the two parts of split_suffix re-join to the lower-cased hostname without
+    # its trailing dots — bare suffix, or first + "." + second) — a theorem for the model of suffix_trie.py on every
+    # host (C13.splitRejoins_psl), and the hypothesis of the theorems with an abstract split_suffix: a real
+    # split_suffix that breaks it is reported.  Not for a bracketed literal, on which split_suffix is not consulted.
     host = spec_hostport(hostport_of(A[1]))[0]
-    if sa and split is not None and not host.startswith("[") and psl_host_ok(host):
+    if sa and split is not None and not host.startswith("["):
         d, s = split
-        rj = s if d == "" else d + "." + s
-        if rj != (A.hostname or "").lower():
-            return "assumption (C08): split_suffix parts %r do not re-join to the lower-cased hostname %r" % (split, A.hostname)
+        walked = (A.hostname or "").lower().rstrip(".")
+        if not ((d == "" and s == walked) or d + "." + s == walked):
+            return "assumption (C08): split_suffix parts %r do not re-join to the lower-cased hostname without its trailing dots %r" % (split, walked)
     if sa and percent_plain(A) and not case_clause_ok(A, split):
         return "assumption (C08 case clause): split_suffix differs on the lower-cased hostname of %r" % (A.hostname,)
     want = raw_components(A)
     if sa:
         want = want[:3] + (want[3].lower(),) + want[4:]
-    kf = None
-    lossy = kf_lossy_host(host, split) if sa else None
     for name, arg in (("url_to_lru", lru), ("lru_stems", list(stems))):
         try:
             back = lru_to_url(arg)
@@ -834,48 +831,24 @@ def oracle_url(url, sa):
         if got != want:
             names = ["scheme", "user", "password", "host", "port", "path", "query", "fragment"]
             diff = [n for n, a, b in zip(names, want, got) if a != b]
-            msg = "lru_to_url(%s(u)) = %r: components %s differ: %r vs %r" % (name, back, diff, want, got)
-            if diff == ["host"] and lossy is not None and got[3] == lossy:
-                # the class of KF-C12-2, and exactly its loss: remembered, the other clauses are still checked
-                kf = kf or (msg + " " + KF2_MARK)
-            else:
-                return msg
+            return "lru_to_url(%s(u)) = %r: components %s differ: %r vs %r" % (name, back, diff, want, got)
         try:
             again = url_to_lru(back, suffix_aware=sa)
         except Exception as e:  # noqa
             return "url_to_lru(%r) raised %s" % (back, type(e).__name__)
         if again != lru:
             return "url_to_lru(lru_to_url(%s(u))) = %r, expected %r (u -> %r)" % (name, again, lru, back)
-    return kf
+    return None
 
 
-KF2_MARK = "[suffix-aware: an empty host label is lost — trailing dot(s) / lone leading dot in front of the public suffix]"
-
-
-def kf_lossy_host(host, split):
-    """KF-C12-2, the exact class and the exact loss: a plain (not bracketed) host that ends with a dot, or that is a
-    dot followed by its public suffix, for which split_suffix answers (domain, suffix).  suffix_trie.py walks the
-    hostname without its trailing dots and returns an empty domain for `.suffix`, stems.py emits `h:suffix` and the
-    labels of a non-empty domain only: lru_to_url gives back the two parts re-joined.  Returns that host (lower-cased,
-    as the suffix-aware mode compares hosts) when it differs from the host of the URL, else None."""
+def empty_label_host(host, split):
+    """the class of the fix FX-C12-EMPTYLABELS (formerly known finding KF-C12-2): a plain host with trailing dot(s), or a
+    lone dot in front of its public suffix, for which split_suffix answers — the empty labels split_suffix does not
+    return (distribution label only; nothing is excused)"""
     if split is None or host.startswith("[") or host == "":
-        return None
+        return False
     d, s = split
-    if not (host.endswith(".") or (host.startswith(".") and d == "")):
-        return None
-    rj = s if d == "" else d + "." + s
-    return rj if rj != ascii_lower(host) else None
-
-
-def kf_suffix_aware_empty_label(case, failure):
-    """KF-C12-2: suffix_aware=True, the only component that differs is the host, the URL's host is in the class of
-    kf_lossy_host and what came back is exactly the two parts of split_suffix re-joined"""
-    if case.get("k") != "url" or not failure.startswith("suffix_aware=True:") or not failure.endswith(KF2_MARK):
-        return False
-    pr = cparse(case["url"])
-    if pr is None or not wf_netloc(pr[0][1]):
-        return False
-    return kf_lossy_host(spec_hostport(hostport_of(pr[0][1]))[0], pr[1]) is not None
+    return host.endswith(".") or (host.startswith(".") and d == "" and ascii_lower(host) != s)
 
 
 def nontrivial(case):
@@ -905,9 +878,7 @@ def classify(case):
         r = class_reason(pr[0] if pr else None, sa, pr[1] if pr else None)
         if r is None and om is None:
             # the hypothesis of the suffix-aware theorems (C08's clause at u) holds?
-            if sa and pr[1] is not None and not spec_hostport(hostport_of(pr[0][1]))[0].startswith("[") and (pr[1][1] if pr[1][0] == "" else pr[1][0] + "." + pr[1][1]) != (pr[0].hostname or "").lower():
-                labs.append("string-class:inside-but-C08-clause-fails(trailing-dot)/sa=1")
-            elif sa and percent_plain(pr[0]):
+            if sa and percent_plain(pr[0]):
                 labs.append("string-class:inside(plain-host-with-percent:C08-case-clause)/sa=1")
             else:
                 labs.append("string-class:inside/sa=%d" % sa)
@@ -936,10 +907,8 @@ def classify(case):
         if h.startswith("[") and split is not None and True in case["sa"]:
             # the class the fix FX-C12-df640b6 is about: split_suffix finds a suffix in the literal's text
             labs.append("bracketed-literal-with-public-suffix-text")
-    if True in case["sa"] and sp and kf_lossy_host(sp[0], split) is not None and in_reading(A, True):
-        labs.append("kf-region(KF-C12-2:empty-host-label-lost)")
-    if True in case["sa"] and sp and not psl_host_ok(sp[0]):
-        labs.append("host-outside-pslHostOK")
+    if True in case["sa"] and sp and empty_label_host(sp[0], split) and in_reading(A, True):
+        labs.append("fixed-region(FX-C12-EMPTYLABELS:trailing-dot/lone-leading-dot-with-suffix)")
     if True in case["sa"]:
         labs.append("split=" + ("none" if split is None else "suffix-only" if split[0] == "" else "%d-label-suffix" % (split[1].count(".") + 1)))
     if "//" in A[2] or A[2].endswith("/"):
